@@ -167,34 +167,70 @@ structure Written where
   gen : Generation
   deriving Repr, Inhabited
 
-/-- `commit`: histories in post-order; a history writes a generation iff it has a list in the session or one of its
-direct children wrote one; references = the direct children that wrote, in the order they wrote.
-`folderName` of the command root and the UTC stamp go into the file names. -/
+/-- what `write_new_generation` + `write_chain` produce for ONE history `h`: its list in the session (or an empty
+one), validated, numbered one above the latest generation, named after the folder and the UTC stamp, carrying the
+accumulated ignore patterns and the references to the direct children that wrote in this run -/
+def writeOne (rootHist : Hist) (s : Session) (rootFolderName stamp process : String)
+    (customBase : Option String) (h : Hist) (refs : List Written) : Except Err Written := do
+  let nl := s.get h.root
+  let records ← nl.records.mapM validateRecord
+  -- `_media_hash_xml_element` writes the format elements of a file record sorted by format name (stable);
+  -- directory records keep their order
+  let records := records.map fun r =>
+    if r.isDir then r else { r with entries := isort (fun a b => strLe a.fmt b.fmt) r.entries }
+  let number := latestGenerationNumber h.gens + 1
+  let folder := (h.root.getLast?).getD rootFolderName
+  let fileName := match customBase with
+    | some b => b ++ "_" ++ stamp ++ Gen.fileExtension
+    | none => genFileName number folder stamp
+  let ignore := setPatterns (latestIgnore h.gens) s.patterns []
+  let g : Generation :=
+    { fileName := fileName, process := process,
+      rootHash := nl.rootRec.bind fun r => if r.entries.isEmpty then none else some r.entries,
+      ignore := ignore, records := records,
+      refs := refs.map fun w =>
+        posix (w.histRoot.drop h.root.length ++ [Gen.folderName, w.gen.fileName]) }
+  pure ⟨h.root, number, g⟩
+
+/-- one step of `commit` for history `h`: it writes iff it has a list in the session or a direct child wrote -/
+def commitStep (rootHist : Hist) (s : Session) (rootFolderName stamp process : String)
+    (customBase : Option String) (written : List Written) (h : Hist) : Except Err (List Written) :=
+  let refs := written.filter fun w => parentRoot rootHist w.histRoot == some h.root
+  let inSession := s.lists.any fun l => l.root == h.root
+  if !inSession && refs.isEmpty then pure written
+  else do
+    let w ← writeOne rootHist s rootFolderName stamp process customBase h refs
+    pure (written ++ [w])
+
+/-- `commit`: histories in post-order (children before parents) -/
 def commit (rootHist : Hist) (s : Session) (rootFolderName stamp process : String)
     (customBase : Option String := none) : Except Err (List Written) :=
-  (walkPost rootHist).foldlM (fun (written : List Written) h => do
-    let refs := written.filter fun w => parentRoot rootHist w.histRoot == some h.root
-    let inSession := s.lists.any fun l => l.root == h.root
-    if !inSession && refs.isEmpty then pure written
-    else
-      let nl := s.get h.root
-      let records ← nl.records.mapM validateRecord
-      -- `_media_hash_xml_element` writes the format elements of a file record sorted by format name (stable);
-      -- directory records keep their order
-      let records := records.map fun r =>
-        if r.isDir then r else { r with entries := isort (fun a b => strLe a.fmt b.fmt) r.entries }
-      let number := latestGenerationNumber h.gens + 1
-      let folder := (h.root.getLast?).getD rootFolderName
-      let fileName := match customBase with
-        | some b => b ++ "_" ++ stamp ++ Gen.fileExtension
-        | none => genFileName number folder stamp
-      let ignore := setPatterns (latestIgnore h.gens) s.patterns []
-      let g : Generation :=
-        { fileName := fileName, process := process,
-          rootHash := nl.rootRec.bind fun r => if r.entries.isEmpty then none else some r.entries,
-          ignore := ignore, records := records,
-          refs := refs.map fun w =>
-            posix (w.histRoot.drop h.root.length ++ [Gen.folderName, w.gen.fileName]) }
-      pure (written ++ [⟨h.root, number, g⟩])) []
+  (walkPost rootHist).foldlM (commitStep rootHist s rootFolderName stamp process customBase) []
+
+/-! ## the effect on disk -/
+
+/-- `write_hash_list` + `write_chain` for one history: the new manifest is added, the chain gets one more entry;
+nothing else in the folder changes -/
+def HistStore.add (s : HistStore) (w : Written) : HistStore :=
+  { s with gens := s.gens ++ [w.gen], chain := s.chain ++ [⟨w.number, w.gen.fileName⟩], chainPresent := true }
+
+mutual
+/-- replace the node at path `p` (below `t`) by `f` of it -/
+def Node.updateAt (f : Node → Node) : Node → RelPath → Node
+  | t, [] => f t
+  | .file n c, _ :: _ => .file n c
+  | .dir nm cs h, n :: rest => .dir nm (Node.updateKids f n rest cs) h
+def Node.updateKids (f : Node → Node) (n : String) (rest : RelPath) : List Node → List Node
+  | [] => []
+  | c :: cs => (if c.name == n then Node.updateAt f c rest else c) :: Node.updateKids f n rest cs
+end
+
+def Node.addGeneration (w : Written) : Node → Node
+  | .dir nm cs h => .dir nm cs (some ((h.getD {}).add w))
+  | x => x
+
+/-- write the generations of a create back into the `ascmhl` folders of the tree -/
+def applyWritten (t : Node) (ws : List Written) : Node :=
+  ws.foldl (fun t w => Node.updateAt (Node.addGeneration w) t w.histRoot) t
 
 end MhlModel
